@@ -21,7 +21,7 @@ static void obs_z(const char *s) { if (!s) printf(" NULL"); else printf(" %d:[%s
 def supported(f):
     """Functions whose atoms have a plain (non-bufferify) C API."""
     for a, _ in f.args:
-        if isinstance(a, A.Vec):
+        if isinstance(a, A.Vec) or not getattr(a, "c_api", True):
             return False
     if isinstance(f.res, A.VecRes):
         return False
